@@ -1,6 +1,6 @@
 (* Compiled on every check run (never cached): statement pins and axioms. *)
 From Coq Require Import Permutation.
-From Stam Require Import Base.Tac Model.Rel Model.Search Proofs.Rel Proofs.Search Proofs.SearchEach Props.C06.
+From Stam Require Import Base.Tac Model.Rel Model.Search Proofs.Rel Proofs.Search Proofs.SearchEach Model.RelArms Model.RangeArms Gen.RangeTable Proofs.AgreeRange Gen.RelPairTable Gen.RelSetTables Proofs.AgreeRelSets Props.C06.
 Check (C06_sound : forall ws o R K len h, generic o ->
   In h (search ws o R K len) -> In h (related ws o R K)).
 Check (C06_complete : forall ws o R K len h, generic o ->
@@ -25,3 +25,11 @@ Check (C06_from_iterator_exact : forall ws o refs K len h, generic o -> Forall w
 Check (C06_from_iterator_each_once : forall ws o refs K len, NoDup (search_each ws o refs K len)).
 Print Assumptions C06_from_iterator_exact.
 Print Assumptions C06_from_iterator_each_once.
+Check (C06_code_range_is_the_model : forall o R len,
+  interp_range range_arms o (ref_begin R) (ref_end R) len = Some (search_range o R len)).
+Check (C06_code_range_covers : forall ws o R c len, set_ok R -> items R <> [] -> tb c <= te c -> te c <= len ->
+  test_set_ts ws o R c = true ->
+  exists rg, interp_range range_arms o (ref_begin R) (ref_end R) len = Some rg /\ in_range rg c).
+Print Assumptions C06_code_range_is_the_model.
+Print Assumptions C06_code_range_covers.
+Print Assumptions C06_code_filter_is_the_model.
